@@ -24,7 +24,7 @@ ASSUMPTIONS = [
     "only hierarchies on the contract-inheriting base (DBC) are generated, as the property states",
     "a change of list contents that changes no single-falsified-contract verdict (e.g. a duplicated entry) is counted as a probe, not as a violation",
 ]
-RUNS = {"quick": 2400, "thorough": 60000}
+RUNS = {"quick": 6000, "thorough": 90000}
 BUDGET_S = {"quick": 70, "thorough": 1200}
 CHUNK = 25
 
